@@ -234,8 +234,11 @@ impl<T: RealNumber, M: Matrix<T>> RidgeRegression<T, M> {
         let col_mean = x.mean(0);
         let col_std = x.std(0);
 
+        let n = x.shape().0;
         for (i, col_std_i) in col_std.iter().enumerate() {
-            if (*col_std_i - T::zero()).abs() < T::epsilon() {
+            // the one-pass variance of a constant column is rounding noise (possibly negative, i.e. a NaN deviation)
+            let constant = (1..n).all(|r| x.get(r, i) == x.get(0, i));
+            if constant || !((*col_std_i - T::zero()).abs() >= T::epsilon()) {
                 return Err(Failed::fit(&format!(
                     "Cannot rescale constant column {}",
                     i
